@@ -14,6 +14,7 @@ import (
 	"path/filepath"
 	"regexp"
 	"sort"
+	"strconv"
 	"strings"
 
 	"github.com/BondMachineHQ/BondMachine/pkg/bondmachine"
@@ -545,6 +546,54 @@ type finding struct {
 }
 
 // render builds, renders and lints one configuration.
+var (
+	instLineRe = regexp.MustCompile(`(?m)^\s*(\w+)\s+\w+\s*\(([^;]*)\);`)
+	modHeadRe  = regexp.MustCompile(`(?s)module\s+(\w+)\s*\(([^)]*)\)`)
+)
+
+// implicitOnWidePort returns the width of the widest port that the (undeclared) identifier is
+// connected to by position in any instance of the file set, 0 when none is found.
+func implicitOnWidePort(files map[string]string, ident string) int {
+	heads := map[string][]string{}
+	bodies := map[string]string{}
+	for _, txt := range files {
+		for _, m := range modHeadRe.FindAllStringSubmatch(txt, -1) {
+			var ports []string
+			for _, p := range strings.Split(m[2], ",") {
+				f := strings.Fields(p)
+				if len(f) > 0 {
+					ports = append(ports, f[len(f)-1])
+				}
+			}
+			heads[m[1]] = ports
+			bodies[m[1]] = txt
+		}
+	}
+	widest := 0
+	for _, txt := range files {
+		for _, m := range instLineRe.FindAllStringSubmatch(txt, -1) {
+			ports, ok := heads[m[1]]
+			if !ok {
+				continue
+			}
+			for k, a := range strings.Split(m[2], ",") {
+				if strings.TrimSpace(a) != ident || k >= len(ports) {
+					continue
+				}
+				re := regexp.MustCompile(`(?m)^\s*(?:input|output|inout)\s*(?:reg|wire)?\s*\[\s*(\d+)\s*:\s*(\d+)\s*\]\s*` + regexp.QuoteMeta(ports[k]) + `\s*;`)
+				if w := re.FindStringSubmatch(bodies[m[1]]); w != nil {
+					hi, _ := strconv.Atoi(w[1])
+					lo, _ := strconv.Atoi(w[2])
+					if hi-lo+1 > widest {
+						widest = hi - lo + 1
+					}
+				}
+			}
+		}
+	}
+	return widest
+}
+
 func render(scratch string, c cfg) (fs []finding, other []string, files map[string]string, err error, genErr error) {
 	bm, err := build(c)
 	if err != nil {
@@ -564,6 +613,17 @@ func render(scratch string, c cfg) (fs []finding, other []string, files map[stri
 	}
 	d, diags := vsim.ParseFiles(files)
 	diags = append(diags, d.Lint("", nil)...)
+	// an identifier that only appears in a port connection is used without a declaration in scope; the
+	// language then makes it an implicit 1-bit net, which is harmless for a 1-bit port (the unchanged
+	// generator does that for the valid/received lines of unbonded inputs) and cannot be what was meant
+	// for a wider port: only the latter is reported, with the undeclared identifiers
+	for _, dg := range d.ImplicitNets() {
+		if w := implicitOnWidePort(files, dg.Ident); w > 1 {
+			dg.Class = vsim.ClassUndeclared
+			dg.Msg = fmt.Sprintf("identifier %s is not declared: it only appears in a port connection, where the language makes it an implicit 1-bit net, but the port is %d bits wide", dg.Ident, w)
+			diags = append(diags, dg)
+		}
+	}
 	seen := map[string]bool{}
 	for _, dg := range diags {
 		cls, ok := named[dg.Class]
